@@ -28,6 +28,7 @@ type pScript struct {
 	MaxRetry int             `json:"maxretry"`
 	Proto    string          `json:"proto"`
 	Big      bool            `json:"big"`
+	Burst    bool            `json:"burst"` // all N messages are waiting in the (buffered) queue when the producer starts, as after a stall of the producer
 	// the sink stops reading before message At (all later messages are multi-kilobyte, so the producer soon blocks in the
 	// middle of one); when a hand-over no longer completes it Then "rst"s the connection (staying reachable) or "resume"s
 	// reading; Tail more messages follow
@@ -356,13 +357,33 @@ func pRun(sc pScript) (res pResult) {
 	}
 	time.Sleep(3 * time.Millisecond)
 	ch := make(chan []byte)
+	msgs := map[string]int{}
+	if sc.Burst {
+		ch = make(chan []byte, sc.N+1)
+		for k := 1; k <= sc.N; k++ {
+			m := pMessage(k, false)
+			if sc.Big {
+				m = append(m, []byte(strings.Repeat("0123456789%abcdef", 600))...)
+			}
+			msgs[string(m)] = k
+			ch <- m
+			res.Events = append(res.Events, pEvent{Ev: "hand", M: k})
+		}
+	}
 	done := make(chan struct{})
 	go func() {
 		defer close(done)
 		rs.inputMsg("topic", ch, &res.ErrCount)
 	}()
-	msgs := map[string]int{}
 	next := 0
+	if sc.Burst {
+		sc.N = 0 // everything has been handed over
+		deadline := time.Now().Add(10 * time.Second)
+		for len(ch) > 0 && time.Now().Before(deadline) {
+			time.Sleep(2 * time.Millisecond)
+		}
+		time.Sleep(20 * pSlow * time.Millisecond)
+	}
 	if sc.Stall != nil {
 		pStall(sc, sink, rs, ch, done, settle, msgs, &res)
 		return
@@ -370,7 +391,12 @@ func pRun(sc pScript) (res pResult) {
 	for k := 1; k <= sc.N; k++ {
 		for next < len(sc.Script) && int(sc.Script[next][1].(float64)) == k {
 			// everything handed over so far has been processed (the channel is unbuffered): the fault falls between messages
-			if sc.Script[next][0].(string) == "die" {
+			if sc.Script[next][0].(string) == "rst" {
+				// the sink has read everything it was sent, then aborts the connection (RST) and goes on listening
+				time.Sleep(5 * pSlow * time.Millisecond)
+				sink.rst()
+				res.Events = append(res.Events, pEvent{Ev: "rst"})
+			} else if sc.Script[next][0].(string) == "die" {
 				time.Sleep(3 * pSlow * time.Millisecond) // let the sink read what is in flight: a death loses nothing already written
 				sink.stop()
 				res.Events = append(res.Events, pEvent{Ev: "die"})
